@@ -89,6 +89,12 @@ def bounded_search(pid, known_kinds):
                 if name == "store-search":
                     w["seed"] = argv[1]
                 findings.append(w)
+    if pid == "C09":
+        import durability
+        r = durability.search(binary)
+        runs.append({"scenario": "durability (strace)", "argv": [], "exit": 0, "searched": r.get("searched"), "found": bool(r.get("found"))})
+        if r.get("found"):
+            findings.append(r)
     for kind, argv in KNOWN_SCENARIOS.get(pid, []):
         rc, out, err = _run(binary, argv)
         js = _json_lines(out)
